@@ -446,6 +446,7 @@ EXTRAS3 = {
 }
 
 EXTRAS4 = {
+ "C04": ("Ebu.Proofs.ConcOnce", '/-! ### exactly once when eligible, and gone afterwards (M2 at quiescence, `Proofs/ConcOnce.lean`) -/\n\n/-- "… and is no longer counted as subscribed afterwards": once every publish has returned, no registration whose\ncompare-and-swap succeeded is still in the registry – under every schedule, whoever claimed it, synchronous or Async -/\ntheorem once_fired_is_retired (progs : List (List Ebu.Conc.Op)) (s : Ebu.Conc.Sys) (h : Ebu.Conc.Reachable progs s)\n    (hd : s.allDone) : ∀ r ∈ s.sh.regs, r.rid ∉ s.sh.executed :=\n  Ebu.Conc.once_fired_is_retired progs s h hd\n\n/-- "… it is invoked exactly once": when no publish context was ever cancelled, every claimed Once registration has been\nentered exactly once by the time everything has finished (a claim is never lost between the compare-and-swap and the call) -/\ntheorem once_claimed_was_entered (progs : List (List Ebu.Conc.Op)) (s : Ebu.Conc.Sys) (h : Ebu.Conc.Reachable progs s)\n    (hd : s.allDone) (hc : s.sh.cancelled = []) : ∀ rid ∈ s.sh.executed, s.sh.enteredOnce.count rid = 1 :=\n  Ebu.Conc.once_claimed_was_entered progs s h hd hc\n\n/-- only Once registrations are ever claimed -/\ntheorem executed_are_once (progs : List (List Ebu.Conc.Op)) (s : Ebu.Conc.Sys) (h : Ebu.Conc.Reachable progs s) :\n    ∀ rid ∈ s.sh.executed, ∀ r ∈ s.sh.regs, r.rid = rid → r.once = true :=\n  Ebu.Conc.executed_are_once progs s h\n\n/-- the hypotheses are satisfiable: two publishers racing for a synchronous and an Async Once registration reach a\nquiescent state in which both were claimed, both entered exactly once, and the registry is empty -/\ntheorem once_quiescence_reachable :\n    Ebu.Conc.Reachable Ebu.Conc.OnceExample.oxProgs Ebu.Conc.OnceExample.oxState ∧ Ebu.Conc.OnceExample.oxState.allDone ∧\n    Ebu.Conc.OnceExample.oxState.sh.cancelled = [] ∧ Ebu.Conc.OnceExample.oxState.sh.executed = [1, 0] ∧\n    Ebu.Conc.OnceExample.oxState.sh.enteredOnce = [1, 0] ∧ Ebu.Conc.OnceExample.oxState.sh.regs = [] :=\n  Ebu.Conc.OnceExample.once_hypotheses_satisfiable\n'),
  "C12": ("Ebu.Proofs.Log", """/-! ### KNOWN FINDING: positions kept in the SQLite store for events kept in a MemoryStore (`WithSubscriptionStore`) -/
 
 /-- KNOWN FINDING (C12-sqlite-subscription-store-rewrites-foreign-offsets): the SQLite store keeps saved positions as
